@@ -144,7 +144,8 @@ struct PolicyOps {
     load_method(int rec, int slot, const std::vector<IdRef>& vp) = 0;
     virtual void unload_method(int slot) = 0;
     virtual void load_def(
-        int rec, int slot, int body, const std::vector<IdRef>& vp) = 0;
+        int rec, int slot, int body, const std::vector<IdRef>& vp,
+        bool with_next) = 0;
     virtual void unload_def(int rec) = 0;
 
     virtual UpdateOut update(const Event& faults) = 0;
